@@ -270,7 +270,8 @@ def make_dataset(rec, fl, *, use_desc=True):
     od = {}
     od['cond'] = lab if fl['cont'] == 'list' else np.array(lab)
     if rec.get('idx', 'none') != 'none':
-        iv = index_values(rec['idx'], len(lab))
+        iv = [int(v) for v in rec['ival']]              # the values the specification chose (IdxSeq)
+        assert iv == index_values(rec['idx'], len(lab))
         od['index'] = iv if fl['cont'] == 'list' else np.array(iv)
     if rec['usefold']:
         f = [FOLD_MAPS[fl['fold']](k) for k in rec['fold']]
@@ -405,10 +406,6 @@ def check_record(rec, i):
         out.append((FRAME_KEY if (cv_default and use_desc) else 'frame/modifies-callers-dataset',
                     f'calc_rdm_unbalanced changed the dataset object of the caller: {d}; obs descriptors now '
                     f'{list(ds.obs_descriptors)}', _case(rec, fl, changed=d, obs_descriptors=list(ds.obs_descriptors))))
-    # a cross-validated method without fold descriptor takes an EXISTING obs descriptor named 'index' as folds: with
-    # repeated values more than the self pairs are excluded (own class; unique values are harmless)
-    if cv_default and use_desc and idx_kind == 'rep' and known is None:
-        known = 'a/cv-without-cv_descriptor/existing-index-descriptor-used-as-folds'
     ok_main = False
     if got is not None:
         want_labels = [LABEL_MAPS[fl['lab']](k) for k in conds] if use_desc else list(range(len(rec['lab'])))
@@ -502,7 +499,7 @@ def check_one_similarity(rec, fl, ds, lab, conds, cross, selfv, noise, dc, known
     m, w = rec['m'], rec['w']
     nc = len(conds)
     pairs = [(k, l) for k in range(nc) for l in range(k + 1, nc)]
-    fold = rec['fold'] if rec['usefold'] else list(range(1, len(lab) + 1))
+    fold = rec['fold'] if rec['usefold'] else (list(rec['ival']) if rec.get('ival') else list(range(1, len(lab) + 1)))
     kind_known = None
     if not dc['complete'] and rec['out']['kind'] == 'corr':
         kind_known = 'c/kernel=correlation/nan'
